@@ -181,6 +181,7 @@ class Env(object):
         self.cur_tx = {}
         self.last_rx = {}
         self.quiet = set()          # tids that are formatting the session for the debug log
+        self.stash = None           # a withheld reply (fault search only): delivered with the next datagram
         self.notes = []
         self.stopped = False
 
@@ -208,7 +209,12 @@ class FakeSock(object):
         if on:
             s.yield_point('tx')
         serial = env.serial if on else -1
+        if on and env.stash is not None:        # a late reply arrives before the next request is answered
+            env.rxq.append(env.stash)
+            env.stash = None
         reply, (seq, rq, cmd) = env.bmc.handle(bytes(pdu), serial)
+        if on and reply is not None and env.cfg.get('late') == serial:
+            env.stash, reply = (reply, serial), None
         if on:
             env.serial += 1
             tid = s.tid()
@@ -859,9 +865,52 @@ def run(ctx):
     _explore_all(ctx, drv, ctx.tier)
 
 
+def _wrong_replies(out):
+    """calls that RETURNED a reply answering a datagram the caller did not send in that call"""
+    return [(tid, sent, got) for tid, sent, got, err in out.results if got is not None and got not in sent]
+
+
+def _judge_faulty(ctx, cfg, out, choices=None):
+    """Oracle that is valid even when replies are delayed: a call may fail, but it must never return the
+    reply to somebody else's (or an earlier) request."""
+    bad = _wrong_replies(out)
+    if not bad:
+        return []
+    case = _case_of(cfg, out.choices if choices is None else choices)
+    ctx.violate('C14:caller-got-another-reply',
+                'a caller was handed the reply to a request it did not send: ' + ', '.join(
+                    'thread %d sent datagram %s and got the reply to datagram %d' % (t, sn, g) for t, sn, g in bad),
+                case, expected='every call returns the reply to its own datagram, or fails',
+                observed={'wire': out.wire, 'results': _res_tokens(out.results),
+                          'errors': [r[3] for r in out.results if r[3]]})
+    return ['C14:caller-got-another-reply']
+
+
+def _fault_search(ctx):
+    """Only when a tie is broken: configurations outside the fault-free quantifier of the property (they are
+    C04's), judged by an oracle that holds under faults too.  The reply to one datagram is withheld until the
+    next datagram is sent (the caller times out; its late reply then sits in front of the next caller's)."""
+    rng = ctx.rng('c14-fault')
+    n = 0
+    for workers, ka in ([[(3, 1)], 0], [[(2, 1), (2, 1)], 0], [[(2, 4), (1, 4)], 1], [[(2, 1), (1, 1), (1, 1)], 0]):
+        for late in (0, 1):
+            for k in range(4):
+                cfg = _cfg(workers, ka, ['none', 'md5', 'password'][k % 3], 0x30 + k, [4, 62, 63, 0][k], 'sync')
+                cfg['late'] = late
+                out = execute(cfg, S.ReplayPolicy([]) if k == 0 else S.RandomPolicy(rng, 0.3))
+                n += 1
+                ctx.count('fault-search:late-reply')
+                if out.status == 'complete' and _judge_faulty(ctx, cfg, out):
+                    ctx.extra['fault_search_schedules'] = n
+                    return True
+    ctx.extra['fault_search_schedules'] = n
+    return False
+
+
 def search(ctx):
     """A tie broke (model rejects a trace / theorem no longer checks) and no schedule explored so
-    far broke the monitor: spend some more budget on schedules against the monitor."""
+    far broke the monitor: spend some more budget on schedules against the monitor, and try the one
+    fault (a late reply) under which handing a caller somebody else's reply shows."""
     if ctx.time_left() < 25:
         return
     try:
@@ -869,6 +918,11 @@ def search(ctx):
         drv.ask('ping')
     except Exception:  # noqa
         return
+    try:
+        if _fault_search(ctx):
+            return
+    except Exception as e:  # noqa
+        ctx.notes.append('fault search failed: %r' % (e,))
     _explore_all(ctx, drv, 'search')
 
 
@@ -881,7 +935,10 @@ def replay(ctx, v):
     pol = S.ReplayPolicy(choices)
     out = execute(cfg, pol)
     q = _Quiet()
-    sigs = judge(q, cfg, out, drv, model=False, choices=choices)
+    if cfg.get('late') is not None:
+        sigs = _judge_faulty(q, cfg, out, choices=choices)
+    else:
+        sigs = judge(q, cfg, out, drv, model=False, choices=choices)
     print('configuration: %s' % cfg)
     print('stopper returned by call_repeatedly on this tree: %s' % (
         'sets the event and joins the keep-alive thread' if variant_joins() else 'sets the event only'))
@@ -895,5 +952,6 @@ def replay(ctx, v):
     for x in q.violations:
         print('VIOLATED: %s  [%s]' % (x['what'], x['observed'].get('monitor') if isinstance(x['observed'], dict) else x['observed']))
     if not q.violations:
-        print('Spec.Threads.accepts: ok')
+        print('Spec.Threads.accepts: ok' if cfg.get('late') is None else
+              'no call returned a reply to a datagram its caller did not send (errors: %s)' % [r[3] for r in out.results if r[3]])
     return bool(sigs)
